@@ -19,12 +19,15 @@
      value holds (CR, LF, NUL, command look-alikes: `body` is arbitrary) —, consumes EXACTLY the bytes of that
      command and is independent of everything that follows it on the stream (`rest` is arbitrary): pipelining keeps
      requests and replies in step.  Keys and numbers are tokens (non-empty, no space, no LF); numbers are int64.
+   * `C11_set_then_get_same_bytes` — end to end through the protocol layer and the bucket model: a served `set`
+     followed by a served `get` of that key replies with exactly the bytes and flags that were sent, for any value
+     bytes, any other content of the store (keys whose hashes do not collide with it), any noreply flag.
   Partial: the reply round trip (`Response.Read` ∘ `Response.Write`) is tied by the correspondence only (model
-  `readResp`, engine proto `rresp` lines on every third reply); that a get returns byte-exactly what the last set
-  stored is C01 through the store model plus the per-command correspondence here.
+  `readResp`, engine proto `rresp` lines on every third reply).
 -/
 import GoBeans.Lemmas.Proto
 import GoBeans.Lemmas.ProtoRT
+import GoBeans.Lemmas.ProtoE2E
 open Proto
 
 theorem C11_cut_stream (cfg : Cfg) (st : St) (inp : Bytes) (h : (readReq cfg st.led inp).res = .net) :
@@ -128,6 +131,23 @@ theorem C11_roundtrip_store (cfg : Cfg) (led : Ledger) (c k : Bytes) (flag expti
   have h := rt_store cfg led c k flag exptime cas body rest nr facts.1 facts.2.1 facts.2.2 hk hf he hcas hlen hlen2
   simp only at h
   rw [h]; exact ⟨rfl, rfl, rfl⟩
+
+/-! ### binary-safe transfer, end to end -/
+
+theorem C11_set_then_get_same_bytes (cfg : Cfg) (hcv : cfg.store.checkVHash = false) (hmk : cfg.maxKeyLen = 250)
+    (K : Spec.Key → Prop) (hInj : StoreLemmas.InjOn hashOf K) (n : Nat) (hn : n + 1 < 2147483647)
+    (st : St) (m : Spec.KV) (hb : Backed K n st m)
+    (k body : Bytes) (flag : Int) (nr : Bool) (buf : Buf)
+    (hk : K k) (hv : validKeyString k = true) (hlen : body.length < 2^63) :
+    let rset : Req := { cmd := ascii "set", keys := [k], flag := flag, exptime := 0, body := body, noreply := nr }
+    let rget : Req := { cmd := ascii "get", keys := [k] }
+    (processGet cfg (processStore cfg st rset buf).1 rget).2.1
+      = some (.value false [{ key := k, flag := ((flag % 4294967296).toNat : Int), body := [.lit body], len := body.length }]) :=
+  set_then_get cfg hcv hmk K hInj n hn st m hb k body flag nr buf hk hv hlen
+
+/-- on a fresh server, for the single key involved, the hypotheses hold -/
+theorem C11_fresh_server_backed (k : Bytes) : Backed (fun x => x = k) 0 ({} : St) [] ∧ StoreLemmas.InjOn hashOf (fun x => x = k) :=
+  ⟨StoreLemmas.inv_init hashOf _, fun a b ha hb _ => by rw [ha, hb]⟩
 
 /-! Non-vacuity: the three situations occur; a value made of a terminator and a command look-alike travels unchanged
     and the pipelined command behind it is left untouched. -/
